@@ -157,3 +157,75 @@ pub fn c11(args: &Args) {
     }
     println!("events {}", out.finish());
 }
+
+// ---------------------------------------------------------------- 30-bit field (multi-modular arithmetic of babai_reduce_i32 / ntru_solve)
+
+const UQ: u64 = 1073754113;
+
+fn u32_or_panic(f: impl FnOnce() -> u32) -> i64 {
+    match guarded(f) {
+        Outcome::Ret(v) => v as i64,
+        Outcome::Panic(_) => -99999,
+    }
+}
+
+pub fn u32field(args: &Args) {
+    let seed = args.num("--seed", 1);
+    let thorough = args.thorough();
+    let dir = PathBuf::from(args.get_or("--out", "work/u32"));
+    let mut out = Shards::create(&dir, "u32f", args.num("--shards", 12) as usize);
+    let mut rng = rng_for(seed, "u32f");
+    let q = UQ as u32;
+    // operand classes: tiny, just below 2^15 / 2^16 (products crossing 2^30, 2^31, 2^32), around q/2, just below q, random
+    let mut special: Vec<u32> = vec![0, 1, 2, 3, 32767, 32768, 32769, 46340, 46341, 65535, 65536, 65537, 1 << 20, (1 << 30) - 1, 1 << 30,
+                                     q / 2 - 1, q / 2, q / 2 + 1, q - 65536, q - 32768, q - 2, q - 1];
+    for _ in 0..(if thorough { 60 } else { 12 }) {
+        special.push(rng.gen_range(0..q));
+        special.push(rng.gen_range(0..65536));
+        special.push(rng.gen_range(60000..65536));
+    }
+    for &a in &special {
+        for &b in &special {
+            let r = [
+                u32_or_panic(|| verif::u32f_add(a, b)),
+                u32_or_panic(|| verif::u32f_sub(a, b)),
+                u32_or_panic(|| verif::u32f_mul(a, b)),
+            ];
+            out.emit(json!({"ev":"u32bin","a":a,"b":b,"add":r[0],"sub":r[1],"mul":r[2],"tag":"bin"}));
+        }
+        out.emit(json!({"ev":"u32un","a":a,"neg":u32_or_panic(|| verif::u32f_neg(a)),"inv":u32_or_panic(|| verif::u32f_inverse_or_zero(a)),
+                        "bal":match guarded(|| verif::u32f_balanced(a)) { Outcome::Ret(v) => v as i64, _ => -99999 },"tag":"un"}));
+    }
+    // conversions inside the reach of C17 (|v| < p; coefficients and quotients are far below); U32Field::new(-p) returns p
+    // (non-canonical, like the repaired Felt::new did) but no listed property quantifies over such inputs
+    for &v in &[0i32, 1, -1, 1073754112, -1073754112, 536870912, -536870912, 16777216, -16777216, 16777215, -16777215, 65536, -65536] {
+        out.emit(json!({"ev":"u32new","v":v,"res":u32_or_panic(|| verif::u32f_new(v)),"tag":"new"}));
+    }
+    // tables
+    let ninv = verif::u32f_table_ninv();
+    out.emit(json!({"ev":"u32tables","powers":verif::u32f_table_powers(),"powers_inv":verif::u32f_table_powers_inverse(),
+                    "ninv_n":ninv.iter().map(|x| x.0).collect::<Vec<_>>(),"ninv":ninv.iter().map(|x| x.1).collect::<Vec<_>>(),"tag":"tables"}));
+    // transforms: round trip and product against small-coefficient inputs (exact over Z: products < 2^29 fit the balanced range)
+    for w in 1..=10usize {
+        let n = 1usize << w;
+        let a: Vec<i64> = (0..n).map(|_| rng.gen_range(-2000..=2000)).collect();
+        let b: Vec<i64> = (0..n).map(|_| rng.gen_range(-100..=100)).collect();
+        let ua: Vec<u32> = a.iter().map(|&x| verif::u32f_new(x as i32)).collect();
+        let ub: Vec<u32> = b.iter().map(|&x| verif::u32f_new(x as i32)).collect();
+        let prod = match guarded(|| {
+            let fa = verif::u32f_fft(&ua);
+            let fb = verif::u32f_fft(&ub);
+            let m: Vec<u32> = fa.iter().zip(fb.iter()).map(|(&x, &y)| verif::u32f_mul(x, y)).collect();
+            verif::u32f_ifft(&m).iter().map(|&x| verif::u32f_balanced(x) as i64).collect::<Vec<i64>>()
+        }) {
+            Outcome::Ret(v) => v,
+            Outcome::Panic(_) => vec![-99999],
+        };
+        let rt = match guarded(|| verif::u32f_ifft(&verif::u32f_fft(&ua)).iter().map(|&x| verif::u32f_balanced(x) as i64).collect::<Vec<i64>>()) {
+            Outcome::Ret(v) => v,
+            Outcome::Panic(_) => vec![-99999],
+        };
+        out.emit(json!({"ev":"u32mul","n":n,"a":a,"b":b,"prod":prod,"rt":rt,"tag":"mul"}));
+    }
+    println!("events {}", out.finish());
+}
